@@ -361,6 +361,7 @@ pub fn universe16() -> Vec<Spec> {
     u.extend([
         Spec::new(0, 0, b"\xff", 2, Val::X),
         Spec::new(0, 0, b"\xff\xff", 1, Val::Y),
+        Spec::new(0, 0, b"a\xff\xff", 2, Val::Y),
         Spec::new(0, 0, b"", 3, Val::Y),
         Spec::new(0, 1, b"", 2, Val::Del),
     ]);
